@@ -45,6 +45,15 @@ def gen_config(rng, tier, flavor="db"):
         "dup_haplotype": rng.random() < 0.06,
         "refit": rng.random() < 0.25,
     }
+    if rng.random() < 0.06:
+        # an allele with prior frequency exactly 0 handed to the library (the programs mask such alleles, the API accepts them):
+        # its exact posterior is 0 whatever the reads say - including reads that favour it by hundreds of log units
+        cfg["freqs"] = "zero"
+        cfg["inbreeding"] = 0.0
+        cfg["initial"] = rng.choice(["random", "homozygous"])
+        cfg["counts"] = rng.choice(["ints", "huge", "huge"])
+        cfg["n_reads"] = rng.choice([1, 2, 4, 7])
+        cfg["gap_rate"] = rng.choice([0.0, 0.2])
     if space < 2:
         cfg["n_alleles"][0] = 2
     if flavor == "db" and rng.random() < 0.04:
@@ -108,7 +117,9 @@ def gen_instance(cfg):
             else:
                 reads[r, j, : n_alleles[j]] = (1 - p) / (n_alleles[j] - 1)
             reads[r, j, a] = p
-    if cfg["counts"] == "ints":
+    if cfg["counts"] == "huge":
+        counts = np.array([rng.choice([50, 200, 800]) for _ in range(n_reads)], dtype=np.int64)
+    elif cfg["counts"] == "ints":
         counts = np.array([rng.choice([1, 1, 2, 3, 5]) for _ in range(n_reads)], dtype=np.int64)
     else:
         counts = np.ones(n_reads, dtype=np.int64)
@@ -116,7 +127,15 @@ def gen_instance(cfg):
         freqs = None
         fl = [1.0 / nh] * nh
     else:
-        if cfg["freqs"] == "tiny":
+        if cfg["freqs"] == "zero":
+            w = [rng.random() + 0.05 for _ in range(nh)]
+            for i in rng.sample(range(nh), rng.randint(1, max(1, nh - 1))):
+                w[i] = 0.0
+            if not any(w):
+                w[0] = 1.0
+            if nh > 1 and all(w):
+                w[-1] = 0.0
+        elif cfg["freqs"] == "tiny":
             w = [rng.choice([1e-6, 1e-3, 1.0, 1.0]) for _ in range(nh)]
             w[rng.randrange(nh)] = 1.0
         else:
@@ -193,10 +212,11 @@ class CallSim:
         rng = _random.Random(self.cfg["data_seed"] ^ (0x77 + chain))
         nh, pl = len(self.haps), self.cfg["ploidy"]
         mode = self.cfg["initial"]
+        ok = [i for i in range(nh) if self.fl[i] > 0]  # start states have positive prior density
         if mode == "homozygous":
-            g = [rng.randrange(nh)] * pl
+            g = [rng.choice(ok)] * pl
         else:
-            g = [rng.randrange(nh) for _ in range(pl)]
+            g = [rng.choice(ok) for _ in range(pl)]
         if not self.cfg.get("unsorted_start"):
             g = sorted(g)
         return np.array(g, dtype=np.int64)
@@ -373,7 +393,13 @@ class CallSim:
                 y = x.copy()
                 y[k] = al
                 cond.append(self.lord(y))
+            if max(cond) == -math.inf:
+                # the other copies already hold an allele of prior probability 0: no conditional is defined
+                self.ctx.counters.inc("zero_density_skip")
+                return out
             want = ref.normalise_logs(cond)
+            if self.cfg["freqs"] == "zero":
+                self.ctx.counters.inc("zero_frequency_allele_move")
             dev = max(abs(float(vec[i]) - want[i]) for i in range(nh))
             self.ctx.counters.inc("gibbs_vectors")
             if self.F > 0:
@@ -465,6 +491,10 @@ class CallSim:
                 y = before.copy()
                 y[pos] = al
                 cond.append(self.lord(y))
+            if max(cond) == -math.inf:
+                # the other copies already hold an allele of prior probability 0: no conditional is defined
+                self.ctx.counters.inc("zero_density_skip")
+                return
             want = ref.normalise_logs(cond)
             dev = max(abs(float(vec[i]) - want[i]) for i in range(nh))
             best = dev if best is None else min(best, dev)
